@@ -154,7 +154,10 @@ inductive Verdict where
 def Verdict.rank : Verdict → Nat
   | .bad _ => 3 | .known _ => 2 | .ok => 1 | .na => 0
 
-def Verdict.join (a b : Verdict) : Verdict := if b.rank > a.rank then b else a
+def Verdict.join (a b : Verdict) : Verdict :=
+  match a, b with
+  | .bad x, .bad y => .bad (x ++ "+" ++ y)
+  | _, _ => if b.rank > a.rank then b else a
 
 def Verdict.show : Verdict → String
   | .ok => "ok" | .na => "?" | .known k => "known:" ++ k | .bad y => "bad " ++ y
